@@ -11,6 +11,10 @@ EXTRA_THEOREM_FILES = globals().get("EXTRA_THEOREM_FILES", [])
 EXTRA_THEOREM_FILES.append("Props/C19_src.v")     # SRCF: source tie, translated source = model (DESIGN 5.1b)
 EXTRA_THEOREM_FILES.append("Props/C19_src_b.v")     # SRCF: second part (OUI / IAB _parse_data, __str__)
 EXTRA_THEOREM_FILES.append("Props/C19_code.v")      # CODC: the C19 index-parser theorems stated about the regenerated definitions
+EXTRA_THEOREM_FILES.append("Props/C19_src_g.v")     # SRCG: iana.query / _within_bounds
+EXTRA_THEOREM_FILES.append("Props/C19_src_g_eui.v")     # SRCG: OUI / IAB constructors (int) and small methods
+EXTRA_THEOREM_FILES.append("Props/C19_src_g_idx.v")     # SRCG: ieee.load_index
+EXTRA_THEOREM_FILES.append("Props/C19_src_g_load.v")     # SRCG: iana DictUpdater.update / MulticastParser.normalise_addr
 RULE = ("iana_query: .info of addresses at first-1, first, first+1, last-1, last, last+1 of every record of both the "
         "IANA_INFO dump and the independent etree reading, boundary values of both families, random addresses "
         "(uniform, inside 224/4, inside 2000::/3); model = query over the generated IANA_INFO literal; oracle = etree "
